@@ -743,8 +743,8 @@ Section ShapeMain.
       cbn [te_kind] in Hkd. contradiction.
   Qed.
 
-  Lemma one_names_cons nm b r :
-    one_names cls nm (b :: r) = one_fold (fun v sc => names_of cls sc (append_name nm v)) [] b ++ one_names cls nm r.
+  Lemma one_names_cons tg nm b r :
+    one_names cls tg nm (b :: r) = branch_fold cls tg nm (names_of cls) (@app ustring) [] b ++ one_names cls tg nm r.
   Proof. reflexivity. Qed.
 
   Lemma xpayloads_simple es r : xpayloads (xsimple_sch es :: r) = xpayloads r.
@@ -753,12 +753,12 @@ Section ShapeMain.
   Proof. unfold xpayloads. cbn [flat_map]. rewrite xtyped_sch. reflexivity. Qed.
 
   Lemma conv_xbranches_shape nm : forall bs names,
-    Forall (PayP SP) bs -> xall_names bs = Some names -> one_frags cls D bs = true ->
+    Forall (PayP SP) bs -> xall_names bs = Some names -> one_frags cls D TagExternal bs = true ->
     (forall sc, In sc (xpayloads bs) -> classify_s sc <> Some (false, KNull)) ->
     forall s0 rvs dn s1, conv_xbranches cvf nm bs s0 = Some (rvs, dn, s1) -> wf s0 -> nD < st_next s0 ->
     ents_ok nD (lk s0) ->
-    NoDup (one_names cls nm bs) -> (forall n, In n (one_names cls nm bs) -> ~ In n (nkeys s0)) ->
-    wf s1 /\ frame s0 s1 /\ names_sub s0 s1 (one_names cls nm bs) /\ ents_ok nD (lk s1) /\
+    NoDup (one_names cls TagExternal nm bs) -> (forall n, In n (one_names cls TagExternal nm bs) -> ~ In n (nkeys s0)) ->
+    wf s1 /\ frame s0 s1 /\ names_sub s0 s1 (one_names cls TagExternal nm bs) /\ ents_ok nD (lk s1) /\
     (forall rv, In rv rvs -> vd_ok (lk s1) (snd rv)) /\ dn = bs_deny bs /\
     forall T, ext s1 T -> DefsNamed T -> AllP (rv_rel T rvs) bs.
   Proof.
@@ -772,7 +772,7 @@ Section ShapeMain.
       destruct (xnames_cases b l Hb) as [(es & -> & Hj & Hne)|(v & sc & -> & ->)].
       + rewrite conv_xbranches_simple, (xsimple_sch_spec es l Hj Hne) in Hc.
         destruct (conv_xbranches cvf nm r s0) as [[[vs2 d2] s2]|] eqn:Hrr; [|discriminate].
-        injection Hc as <- <- <-. cbn [one_fold xsimple_sch app] in Hnd, Hfr.
+        injection Hc as <- <- <-. cbn [branch_fold xsimple_sch app] in Hnd, Hfr.
         rewrite xpayloads_simple in Hnn.
         destruct (IH rest (Forall_inv_tail HP) Hr Hf2 Hnn s0 vs2 d2 s2 Hrr Hw Hnx Hg Hnd Hfr)
           as (Hw2 & Hfr2 & Hns2 & Hg2 & Hvd2 & Hd2 & HR2).
@@ -786,7 +786,7 @@ Section ShapeMain.
              injection Hx as <-. apply in_or_app. left. apply in_map_iff. exists x. split; [reflexivity|exact Hin].
           -- apply AllP_In. intros b' Hb'. eapply rv_rel_mono; [apply incl_appr, incl_refl|].
              exact (proj1 (AllP_In _ _) (HR2 T He Hp) b' Hb').
-      + rewrite conv_xbranches_typed in Hc. cbn [one_fold xbranch] in Hf1, Hnd, Hfr.
+      + rewrite conv_xbranches_typed in Hc. cbn [branch_fold xbranch] in Hf1, Hnd, Hfr.
         destruct (conv_xvar cvf nm v sc s0) as [[[vd deny] sa]|] eqn:Hv; [|discriminate].
         destruct (conv_xbranches cvf nm r sa) as [[[vs2 d2] s2]|] eqn:Hrr; [|discriminate].
         injection Hc as <- <- <-.
@@ -803,7 +803,7 @@ Section ShapeMain.
           - apply (Hfr n); [apply in_or_app; right; exact Hin|exact H].
           - exact (NoDup_app_disj _ _ n Hnd H Hin). }
         split; [exact Hw2|]. split; [eapply frame_trans; eassumption|]. split.
-        * rewrite one_names_cons. cbn [one_fold xbranch]. eapply names_sub_trans; eassumption.
+        * rewrite one_names_cons. cbn [branch_fold xbranch]. eapply names_sub_trans; eassumption.
         * split; [exact Hg2|]. split; [|split].
           -- intros rv [<-|Hin]; [|exact (Hvd2 rv Hin)]. cbn [snd].
              eapply vd_ok_mono; [exact (frame_mono sa s2 Hwa Hfr2)|exact Hvda].
@@ -1023,8 +1023,10 @@ Section ShapeMain.
       pose proof (conv_xbranches_names cvf nm' bs names s0 rvs deny sa Hnames Hcb) as Hfst. rewrite Hfst in Hc.
       destruct (Sanitize.variant_idents cls names) as [ids| |] eqn:Hv; try discriminate.
       injection Hc as <- <-.
-      cbn [frag_kind] in Hfk. rewrite Hnames in Hfk.
+      cbn [frag_kind variant_names] in Hfk. rewrite Hnames in Hfk.
+      apply andb_true_iff in Hfk. destruct Hfk as [Hfk _].
       apply andb_true_iff in Hfk. destruct Hfk as [Hfk Hfr']. apply andb_true_iff in Hfk. destruct Hfk as [_ Hpay].
+      cbn [branches_ok] in Hpay.
       cbn [own_names sub_names] in Hnd, Hfr. rewrite Hn in Hnd, Hfr.
       assert (Hnn : forall sc, In sc (xpayloads bs) -> classify_s sc <> Some (false, KNull)).
       { intros sc Hin Hcl. unfold payloads_ok in Hpay. apply andb_true_iff in Hpay. destruct Hpay as [Hpay _].
@@ -1097,7 +1099,11 @@ Section ShapeMain.
         destruct Hcases as [(l & tt & _ & _ & _ & Hk)|(_ & _ & _ & _ & _ & _ & _ & _ & _ & _ & _ & _ & _ & [(r & _ & Hk)|[(_ & Hk)|(bs' & tg' & Hbs & _ & Hk & Hok)]])];
           try discriminate Hk.
         - apply kind_of_type_inv in Hk. destruct Hk as (_ & _ & _ & _ & _ & _ & _ & []).
-        - injection Hk as ->. injection Hbs as <-. destruct (one_kind_external bs tg' Hok) as (-> & names & Hn & Hndn).
+        - injection Hk as ->. injection Hbs as <-.
+          assert (Htg : tg' = TagExternal).
+          { clear - Hf. cbn [frag_kind] in Hf. apply andb_true_iff in Hf. destruct Hf as [_ Hp].
+            destruct tg'; try discriminate Hp. reflexivity. }
+          subst tg'. destruct (one_kind_external bs Hok) as (names & Hn & Hndn).
           split; [reflexivity|]. exists bs, names. repeat split; assumption. }
       destruct nl; cbn [conv_node] in Hc.
       + destruct (conv_kind cls (ref_id D) cvf k (inner_name nm) items props req ap oneo s0) as [[te' s1']|] eqn:Hck;
